@@ -74,7 +74,7 @@ CheckParse(r) ==
       tgt == IF r.sameTemplate THEN Blank(m) ELSE r.target
       \* the message itself when it was serialized as specified, otherwise what the wire really
       \* carries (a serialization defect is reported once, by C17/C01, not again here)
-      exp == IF r.sameTemplate /\ w = Wire(m) THEN m ELSE RefParse(tgt, w)
+      exp == IF r.strictRT \/ (r.sameTemplate /\ w = Wire(m)) THEN m ELSE RefParse(tgt, w)
       prop == IF r.lookalike THEN "C18" ELSE "C02"
   IN r.serOk /\ r.parsed =>
        /\ (r.sameTemplate => (SameContent(RefParse(Blank(m), Wire(m)), m)
